@@ -1008,7 +1008,6 @@ theorem finishAll_cons_ok (cn : Country K) (B : K) (c : WC K) (t : List (WC K)) 
     (finishOne cn c B).1.hkTotal = 0 ∧
     ∃ ds', finishAll cn (finishOne cn c B).2 t = .ok ds' ∧ ds = (finishOne cn c B).1 :: ds' := by
   rw [finishAll] at h
-  dsimp only at h
   split_ifs at h with h0
   refine ⟨(eq_zero_iff_le _).mp h0, ?_⟩
   cases hrec : finishAll cn (finishOne cn c B).2 t with
@@ -1047,9 +1046,7 @@ theorem finishAll_no_error (cn : Country K) (hcn : CountryOK cn) (trf : WC K →
     obtain ⟨e1, e2⟩ := h0 rfl
     obtain ⟨ds', hrec⟩ := ih (fun x hx => hcs x (by simp [hx]))
     refine ⟨(finishOne cn c 0).1 :: ds', ?_⟩
-    rw [finishAll]
-    dsimp only
-    rw [if_pos ((eq_zero_iff_le _).mpr e1), e2, hrec]
+    rw [finishAll, if_pos ((eq_zero_iff_le _).mpr e1), e2, hrec]
 
 theorem zipFeed_map (herds : List (Herd K)) (os : List (FeedOut K)) (hlen : os.length = herds.length) :
     (zipFeed herds os).map (·.h) = herds ∧ (zipFeed herds os).map (·.fo) = os := by
@@ -1064,5 +1061,303 @@ theorem zipFeed_map (herds : List (Herd K)) (os : List (FeedOut K)) (hlen : os.l
     | cons o t =>
       obtain ⟨i1, i2⟩ := ih t (by simpa using hlen)
       exact ⟨by simp only [zipFeed, List.map_cons, i1], by simp only [zipFeed, List.map_cons, i2]⟩
+
+/-! ### one month -/
+
+/-- everything proved about one pass of the month loop: `herds` at the start, the record `r`,
+    `herds'` at the end -/
+structure MonthFacts (rnd : K → K) (feed grass : K) (herds : List (Herd K)) (r : MonthRec K)
+    (herds' : List (Herd K)) : Prop where
+  start : r.recs.map (fun d => d.c.b.a.h) = herds
+  next : herds' = r.recs.map nextHerd
+  trnn : ∀ s, 0 ≤ transferOf (r.recs.map (fun d => d.c.b)) s
+  dok : ∀ d ∈ r.recs, DOK (transferOf (r.recs.map (fun d => d.c.b)) d.c.b.a.h.sp.species) d
+  hours : ∀ s, s ≠ Size.other →
+    ((r.recs.filter (fun d => d.c.b.a.h.sp.size = s)).map (fun d => d.c.slaughter * d.c.b.a.h.sp.hours)).sum
+      ≤ ((herds.filter (fun h => h.sp.size = s)).map (fun h => h.sp.hours * h.sp.baseline)).sum
+  inv : ∀ h ∈ herds', HerdOK h
+  feeding : r.recs.map (fun d => d.c.b.a.fo) = (feedAll rnd (herds.map feedReqOf) grass feed).1
+  starving : ∀ d ∈ r.recs, d.c.b.a.starvingPre = d.c.b.a.h.st.pop - d.c.b.a.fo.fed
+  usedFeed : r.feedUsed = feed - (feedAll rnd (herds.map feedReqOf) grass feed).2.2
+  usedGrass : r.grassUsed = grass - (feedAll rnd (herds.map feedReqOf) grass feed).2.1
+
+theorem classHours_nonneg (herds : List (Herd K)) (hh : ∀ h ∈ herds, HerdOK h) (s : Size) :
+    0 ≤ classHours herds s ∧
+    classHours herds s = ((herds.filter (fun h => h.sp.size = s)).map (fun h => h.sp.hours * h.sp.baseline)).sum := by
+  unfold classHours
+  rw [lsum_eq_sum]
+  refine ⟨List.sum_nonneg ?_, rfl⟩
+  intro x hx
+  obtain ⟨h, hm, rfl⟩ := List.mem_map.mp hx
+  have := hh h (List.mem_of_mem_filter hm)
+  exact mul_nonneg this.sp.hours.le this.sp.baseline
+
+theorem hoursBySize_get (herds : List (Herd K)) (s : Size) (hs : s ≠ Size.other) :
+    (hoursBySize herds).get s = classHours herds s := by
+  cases s <;> first | rfl | exact absurd rfl hs
+
+theorem zipFeed_starving (herds : List (Herd K)) (os : List (FeedOut K)) :
+    ∀ a ∈ zipFeed herds os, a.starvingPre = a.h.st.pop - a.fo.fed := by
+  induction herds generalizing os with
+  | nil => intro a ha; cases os <;> simp [zipFeed] at ha
+  | cons h hs ih =>
+    cases os with
+    | nil => intro a ha; simp [zipFeed] at ha
+    | cons o t =>
+      intro a ha
+      simp only [zipFeed, List.mem_cons] at ha
+      rcases ha with rfl | ha
+      · rfl
+      · exact ih t a ha
+
+theorem monthStep_spec (cn : Country K) (hcn : CountryOK cn) (rnd : K → K) (first : Bool) (month : K)
+    (herds : List (Herd K)) (hh : ∀ h ∈ herds, HerdOK h) (feed grass : K) (r : MonthRec K)
+    (herds' : List (Herd K))
+    (h : monthStep cn rnd first month herds feed grass = .ok (r, herds')) :
+    MonthFacts rnd feed grass herds r herds' := by
+  unfold monthStep at h
+  dsimp only at h
+  set fa := feedAll rnd (herds.map feedReqOf) grass feed with hfa
+  set was := zipFeed herds fa.1 with hwas
+  set wbs := was.map (birthsOne month) with hwbs
+  have hlen : fa.1.length = herds.length := by rw [hfa, feedAll_length, List.length_map]
+  obtain ⟨hwas_h0, hwas_fo0⟩ := zipFeed_map herds fa.1 hlen
+  have hwas_h : was.map (·.h) = herds := hwas_h0
+  have hwas_fo : was.map (·.fo) = fa.1 := hwas_fo0
+  have hwas_ok : ∀ a ∈ was, HerdOK a.h := by
+    intro a ha
+    apply hh
+    rw [← hwas_h]
+    exact List.mem_map_of_mem ha
+  have hwbs_ok : ∀ b ∈ wbs, BOK b := by
+    intro b hb
+    obtain ⟨a, ha, rfl⟩ := List.mem_map.mp hb
+    exact birthsOne_ok month a (hwas_ok a ha)
+  have hwbs_a : wbs.map (·.a) = was := by
+    rw [hwbs, List.map_map]
+    conv_rhs => rw [← List.map_id was]
+    exact List.map_congr_left (fun a _ => rfl)
+  have htr : ∀ s, 0 ≤ transferOf wbs s := by
+    intro s
+    apply transferOf_nonneg
+    intro b hb
+    have := hwbs_ok b hb
+    rw [this.out]; linarith [this.ret, this.tb]
+  have hhrs : HoursOK (hoursBySize herds) :=
+    ⟨(classHours_nonneg herds hh _).1, (classHours_nonneg herds hh _).1, (classHours_nonneg herds hh _).1⟩
+  cases hsl : slaughterAll first wbs (hoursBySize herds) wbs with
+  | error e => rw [hsl] at h; cases h
+  | ok wcs =>
+    rw [hsl] at h
+    dsimp only at h
+    obtain ⟨hc1, hc2, hc3⟩ := slaughterAll_spec first wbs htr wbs hwbs_ok _ hhrs wcs hsl
+    cases hfi : finishAll cn cn.homekillHours wcs with
+    | error e => rw [hfi] at h; cases h
+    | ok wds =>
+      rw [hfi] at h
+      simp only [Except.ok.injEq, Prod.mk.injEq] at h
+      obtain ⟨rfl, rfl⟩ := h
+      obtain ⟨hd1, hd2⟩ := finishAll_spec cn hcn (fun c => transferOf wbs c.b.a.h.sp.species) wcs hc2 _ hcn.hk wds hfi
+      have hmb : wds.map (fun d => d.c.b) = wbs := by
+        rw [← hc1, ← hd1, List.map_map]; rfl
+      have hma : wds.map (fun d => d.c.b.a) = was := by
+        rw [← hwbs_a, ← hmb, List.map_map]; rfl
+      refine ⟨?_, rfl, ?_, ?_, ?_, ?_, ?_, ?_, rfl, rfl⟩
+      · show wds.map (fun d => d.c.b.a.h) = herds
+        rw [← hwas_h, ← hma, List.map_map]; rfl
+      · show ∀ s, 0 ≤ transferOf (wds.map (fun d => d.c.b)) s
+        rw [hmb]; exact htr
+      · show ∀ d ∈ wds, DOK (transferOf (wds.map (fun d => d.c.b)) d.c.b.a.h.sp.species) d
+        rw [hmb]; exact hd2
+      · intro s hs
+        show ((wds.filter (fun d => d.c.b.a.h.sp.size = s)).map (fun d => d.c.slaughter * d.c.b.a.h.sp.hours)).sum ≤ _
+        have := hc3 s hs
+        rw [hoursBySize_get _ _ hs, (classHours_nonneg herds hh s).2, ← hd1, List.filter_map, List.map_map] at this
+        exact this
+      · intro h' hh'
+        obtain ⟨d, hd, rfl⟩ := List.mem_map.mp hh'
+        exact dok_next _ d (hd2 d hd)
+      · show wds.map (fun d => d.c.b.a.fo) = fa.1
+        rw [← hwas_fo, ← hma, List.map_map]; rfl
+      · intro d hd
+        have : d.c.b.a ∈ was := by rw [← hma]; exact List.mem_map_of_mem (f := fun d : WD K => d.c.b.a) hd
+        exact zipFeed_starving herds fa.1 _ this
+
+theorem monthStep_no_error (cn : Country K) (hcn : CountryOK cn) (hk0 : cn.homekillHours = 0) (rnd : K → K)
+    (first : Bool) (month : K) (herds : List (Herd K)) (hh : ∀ h ∈ herds, HerdOK h)
+    (hsz : ∀ h ∈ herds, h.sp.size ≠ Size.other) (feed grass : K) :
+    ∃ out, monthStep cn rnd first month herds feed grass = .ok out := by
+  unfold monthStep
+  dsimp only
+  set fa := feedAll rnd (herds.map feedReqOf) grass feed with hfa
+  set was := zipFeed herds fa.1 with hwas
+  set wbs := was.map (birthsOne month) with hwbs
+  have hlen : fa.1.length = herds.length := by rw [hfa, feedAll_length, List.length_map]
+  obtain ⟨hwas_h0, -⟩ := zipFeed_map herds fa.1 hlen
+  have hwas_h : was.map (·.h) = herds := hwas_h0
+  have hwas_mem : ∀ a ∈ was, a.h ∈ herds := by
+    intro a ha
+    rw [← hwas_h]
+    exact List.mem_map_of_mem ha
+  have hwbs_ok : ∀ b ∈ wbs, BOK b := by
+    intro b hb
+    obtain ⟨a, ha, rfl⟩ := List.mem_map.mp hb
+    exact birthsOne_ok month a (hh _ (hwas_mem a ha))
+  have hwbs_sz : ∀ b ∈ wbs, b.a.h.sp.size ≠ Size.other := by
+    intro b hb
+    obtain ⟨a, ha, rfl⟩ := List.mem_map.mp hb
+    exact hsz _ (hwas_mem a ha)
+  have htr : ∀ s, 0 ≤ transferOf wbs s := by
+    intro s
+    apply transferOf_nonneg
+    intro b hb
+    have := hwbs_ok b hb
+    rw [this.out]; linarith [this.ret, this.tb]
+  have hhrs : HoursOK (hoursBySize herds) :=
+    ⟨(classHours_nonneg herds hh _).1, (classHours_nonneg herds hh _).1, (classHours_nonneg herds hh _).1⟩
+  obtain ⟨wcs, hsl⟩ := slaughterAll_no_error first wbs htr wbs hwbs_ok hwbs_sz _ hhrs
+  obtain ⟨-, hc2, -⟩ := slaughterAll_spec first wbs htr wbs hwbs_ok _ hhrs wcs hsl
+  obtain ⟨wds, hfi⟩ := finishAll_no_error cn hcn (fun c => transferOf wbs c.b.a.h.sp.species) wcs hc2
+  rw [hsl]
+  dsimp only
+  rw [hk0, hfi]
+  exact ⟨_, rfl⟩
+
+/-! ### the whole run -/
+
+/-- month records chained from the initial herds to the final herds -/
+inductive Chain (rnd : K → K) : List (Herd K) → List (K × K) → List (MonthRec K) → List (Herd K) → Prop
+  | nil (hs : List (Herd K)) : Chain rnd hs [] [] hs
+  | cons (hs : List (Herd K)) (feed grass : K) (series : List (K × K)) (r : MonthRec K)
+      (hs' : List (Herd K)) (rs : List (MonthRec K)) (hf : List (Herd K)) :
+      (∀ h ∈ hs, HerdOK h) → MonthFacts rnd feed grass hs r hs' → Chain rnd hs' series rs hf →
+      Chain rnd hs ((feed, grass) :: series) (r :: rs) hf
+
+theorem runFrom_spec (cn : Country K) (hcn : CountryOK cn) (rnd : K → K) (series : List (K × K))
+    (first : Bool) (month : K) (herds : List (Herd K)) (hh : ∀ h ∈ herds, HerdOK h)
+    (rs : List (MonthRec K)) (hf : List (Herd K))
+    (h : runFrom cn rnd first month herds series = .ok (rs, hf)) :
+    Chain rnd herds series rs hf ∧ ∀ h ∈ hf, HerdOK h := by
+  induction series generalizing first month herds rs with
+  | nil =>
+    rw [runFrom] at h
+    simp only [Except.ok.injEq, Prod.mk.injEq] at h
+    obtain ⟨rfl, rfl⟩ := h
+    exact ⟨Chain.nil _, hh⟩
+  | cons fg t ih =>
+    obtain ⟨feed, grass⟩ := fg
+    rw [runFrom] at h
+    cases hm : monthStep cn rnd first month herds feed grass with
+    | error e => rw [hm] at h; cases h
+    | ok out =>
+      obtain ⟨r, herds'⟩ := out
+      rw [hm] at h
+      dsimp only at h
+      cases hr : runFrom cn rnd false (month + 1) herds' t with
+      | error e => rw [hr] at h; cases h
+      | ok out2 =>
+        obtain ⟨rs', hf'⟩ := out2
+        rw [hr] at h
+        simp only [Except.ok.injEq, Prod.mk.injEq] at h
+        obtain ⟨rfl, rfl⟩ := h
+        have hmf := monthStep_spec cn hcn rnd first month herds hh feed grass r herds' hm
+        obtain ⟨hch, hfin⟩ := ih false (month + 1) herds' hmf.inv rs' hr
+        exact ⟨Chain.cons _ _ _ _ _ _ _ _ hh hmf hch, hfin⟩
+
+theorem runFrom_no_error (cn : Country K) (hcn : CountryOK cn) (hk0 : cn.homekillHours = 0) (rnd : K → K)
+    (series : List (K × K)) (first : Bool) (month : K) (herds : List (Herd K))
+    (hh : ∀ h ∈ herds, HerdOK h) (hsz : ∀ h ∈ herds, h.sp.size ≠ Size.other) :
+    ∃ out, runFrom cn rnd first month herds series = .ok out := by
+  induction series generalizing first month herds with
+  | nil => exact ⟨_, rfl⟩
+  | cons fg t ih =>
+    obtain ⟨feed, grass⟩ := fg
+    obtain ⟨⟨r, herds'⟩, hm⟩ := monthStep_no_error cn hcn hk0 rnd first month herds hh hsz feed grass
+    have hmf := monthStep_spec cn hcn rnd first month herds hh feed grass r herds' hm
+    have hsz' : ∀ h ∈ herds', h.sp.size ≠ Size.other := by
+      intro h' hh'
+      rw [hmf.next] at hh'
+      obtain ⟨d, hd, rfl⟩ := List.mem_map.mp hh'
+      have : d.c.b.a.h ∈ herds := by rw [← hmf.start]; exact List.mem_map_of_mem (f := fun d : WD K => d.c.b.a.h) hd
+      exact hsz (d.c.b.a.h) this
+    obtain ⟨⟨rs, hf⟩, hr⟩ := ih false (month + 1) herds' hmf.inv hsz'
+    refine ⟨(r :: rs, hf), ?_⟩
+    rw [runFrom, hm]
+    dsimp only
+    rw [hr]
+
+/-- every record of a chain comes from a month that started with herds satisfying the invariant -/
+theorem chain_mem (rnd : K → K) (herds : List (Herd K)) (series : List (K × K)) (rs : List (MonthRec K))
+    (hf : List (Herd K)) (hc : Chain rnd herds series rs hf) (r : MonthRec K) (hr : r ∈ rs) :
+    ∃ feed grass hs hs', (feed, grass) ∈ series ∧ (∀ h ∈ hs, HerdOK h) ∧ MonthFacts rnd feed grass hs r hs' := by
+  induction hc with
+  | nil hs => simp at hr
+  | cons hs feed grass series r0 hs' rs hf hok hmf hch ih =>
+    rcases List.mem_cons.mp hr with rfl | hr
+    · exact ⟨feed, grass, hs, hs', by simp, hok, hmf⟩
+    · obtain ⟨f, g, a, b, h1, h2, h3⟩ := ih hr
+      exact ⟨f, g, a, b, by simp [h1], h2, h3⟩
+
+/-! ### the clauses of C06 for one month, from `MonthFacts` -/
+
+/-- the dairy herds of the list have pairwise different species keys -/
+def MilkKeysDistinct (herds : List (Herd K)) : Prop :=
+  herds.Pairwise (fun x y => x.sp.isMilk = true → y.sp.isMilk = true → x.sp.species ≠ y.sp.species)
+
+theorem month_ledger {rnd : K → K} {feed grass : K} {herds : List (Herd K)} {r : MonthRec K}
+    {herds' : List (Herd K)} (hm : MonthFacts rnd feed grass herds r herds') : ∀ d ∈ r.recs, Ledger d :=
+  fun d hd => dok_ledger _ d (hm.dok d hd) (hm.trnn _)
+
+theorem month_nonneg {rnd : K → K} {feed grass : K} {herds : List (Herd K)} {r : MonthRec K}
+    {herds' : List (Herd K)} (hm : MonthFacts rnd feed grass herds r herds') : ∀ d ∈ r.recs, NonNeg d :=
+  fun d hd => dok_nonneg _ d (hm.dok d hd) (hm.trnn _)
+
+theorem month_availTarget {rnd : K → K} {feed grass : K} {herds : List (Herd K)} {r : MonthRec K}
+    {herds' : List (Herd K)} (hm : MonthFacts rnd feed grass herds r herds') : ∀ d ∈ r.recs, AvailTarget d :=
+  fun d hd => dok_availTarget _ d (hm.dok d hd)
+
+/-- the transfer clause: what a dairy herd retires plus its surviving male calves is exactly what
+    the meat herd with the same species key receives (and what the dairy herd books as leaving) -/
+theorem month_transfer {rnd : K → K} {feed grass : K} {herds : List (Herd K)} {r : MonthRec K}
+    {herds' : List (Herd K)} (hm : MonthFacts rnd feed grass herds r herds') (hk : MilkKeysDistinct herds)
+    (e : WD K) (he : e ∈ r.recs) (hem : e.c.b.a.h.sp.isMilk = true) :
+    e.c.transferPop = -(e.c.b.retiring + e.c.b.transferBirths) ∧
+    e.c.b.retiring = e.c.b.a.h.st.pop * e.c.b.a.h.sp.retFrac ∧
+    e.c.b.transferBirths = e.c.b.births * (e.c.b.a.h.sp.birthRatio - 1) * (1 - e.c.b.a.h.sp.tcf) ∧
+    ∀ d ∈ r.recs, d.c.b.a.h.sp.isMilk = false → d.c.b.a.h.sp.species = e.c.b.a.h.sp.species →
+      d.c.transferPop = e.c.b.retiring + e.c.b.transferBirths := by
+  have hpw : (r.recs.map (fun d => d.c.b)).Pairwise (fun x y => x.a.h.sp.isMilk = true → y.a.h.sp.isMilk = true →
+      x.a.h.sp.species ≠ y.a.h.sp.species) := by
+    have : herds = (r.recs.map (fun d => d.c.b)).map (fun b => b.a.h) := by
+      rw [← hm.start, List.map_map]; rfl
+    unfold MilkKeysDistinct at hk
+    rw [this, List.pairwise_map] at hk
+    exact hk
+  have hmem : e.c.b ∈ r.recs.map (fun d => d.c.b) := List.mem_map_of_mem (f := fun d : WD K => d.c.b) he
+  have hu := transferOf_unique _ e.c.b hmem hem hpw
+  have hde := hm.dok e he
+  have hbe := hde.c.b
+  refine ⟨?_, hbe.retMilk hem, hbe.tbDef, ?_⟩
+  · rw [hde.c.tp, if_pos hem, hu, hbe.out]
+  · intro d hd hdm hds
+    have hdd := hm.dok d hd
+    rw [hdd.c.tp, hdm, hds, hu, hbe.out]
+    simp
+
+/-- a meat herd whose species has no dairy herd receives nothing -/
+theorem month_transfer_none {rnd : K → K} {feed grass : K} {herds : List (Herd K)} {r : MonthRec K}
+    {herds' : List (Herd K)} (hm : MonthFacts rnd feed grass herds r herds')
+    (d : WD K) (hd : d ∈ r.recs) (hdm : d.c.b.a.h.sp.isMilk = false)
+    (hno : ∀ e ∈ r.recs, ¬ (e.c.b.a.h.sp.isMilk = true ∧ e.c.b.a.h.sp.species = d.c.b.a.h.sp.species)) :
+    d.c.transferPop = 0 := by
+  have hdd := hm.dok d hd
+  rw [hdd.c.tp, hdm]
+  simp only [Bool.false_eq_true, if_false]
+  unfold transferOf
+  rw [transferFind_none]
+  · rfl
+  · intro b hb
+    obtain ⟨e, he, rfl⟩ := List.mem_map.mp hb
+    exact hno e he
 
 end Allfed.HerdProofs
